@@ -31,6 +31,7 @@ func checkC13(c *Ctx) {
 	ruleOpenAtMarker(c)
 	ruleSetextChar(c)
 	ruleEmphShrink(c)
+	ruleEmphCurrent(c)
 	ruleHardBreakSet(c)
 	ruleSpecBoundsFor(c, "C13")
 }
@@ -926,5 +927,175 @@ func init() {
 			Old: "\t\tif c := remaining[end]; c != ' ' && c != '\\n' && c != '\\r' {", New: "\t\tif !isSpaceTabOrLineEnding(remaining[end]) {", Expect: "HARDBREAK-SET/parseHardLineBreakSpace:loop"},
 		Control{Name: "neg-hard-break-scan-as-switch", Props: []string{"C13", "C14"}, File: "inlines.go", Negative: true,
 			Old: "\t\tif c := remaining[end]; c != ' ' && c != '\\n' && c != '\\r' {\n\t\t\treturn end, false\n\t\t}", New: "\t\tswitch remaining[end] {\n\t\tcase ' ', '\\n', '\\r':\n\t\tdefault:\n\t\t\treturn end, false\n\t\t}"},
+	)
+}
+
+// ---------------------------------------------------------------------------------------------
+// EMPH-CURRENT: whether a pair of runs makes strong emphasis is decided by what is left of each run now.
+
+func ruleEmphCurrent(c *Ctx) {
+	c.Rule("EMPH-CURRENT", "A delimiter run can be used by several matches; each takes one or two characters off it. Whether a match makes strong emphasis ('both runs have at least two characters left') must therefore look at what is left of the opener and of the closer at that moment: in processEmphasis every quantity that the strong decision compares with 2 is the current length of a delimiter node's span (Span().Len() of the node handed to wrap, or End−Start of its span), or a field of an element of the delimiter stack that the function reduces, through the stack slot itself, when delimiters are used. A count read from a copy of the stack element, or one that is never reduced (the run length as scanned), lets a closer that has given away all but one character make strong emphasis again: the node then does not end in two delimiter characters.")
+	p := c.P
+	fn := p.Method("InlineParser", "processEmphasis")
+	wrap := p.Method("inlineState", "wrap")
+	if !c.NeedFunc("EMPH-CURRENT", fn, "(*InlineParser).processEmphasis") || wrap == nil {
+		return
+	}
+	strongK, _ := kindValue(p, "InlineKind", "StrongKind")
+	// the branches that select strong: every If on the dominator chain of the point where the kind becomes StrongKind
+	// (the block of wrap(StrongKind, …), or the predecessor that feeds StrongKind into the kind phi) one of whose edges
+	// leads there; only comparisons with 2 are looked at below, so outer conditions (an opener was found) do not matter
+	var conds []ssa.Value
+	addDominatingIfs := func(at *ssa.BasicBlock) {
+		for id := at.Idom(); id != nil; id = id.Idom() {
+			if iff := blockIf(id); iff != nil && (edgeDominates(id, 0, at) != edgeDominates(id, 1, at)) {
+				conds = append(conds, iff.Cond)
+			}
+		}
+	}
+	eachInstr(fn, func(in ssa.Instruction) {
+		call, ok := in.(*ssa.Call)
+		if !ok || call.Call.StaticCallee() != wrap || len(call.Call.Args) != 4 {
+			return
+		}
+		if k, ok := constInt(call.Call.Args[1]); ok && k == strongK {
+			addDominatingIfs(call.Block())
+		}
+		if ph, ok := call.Call.Args[1].(*ssa.Phi); ok {
+			for i, e := range ph.Edges {
+				if k, ok := constInt(e); ok && k == strongK {
+					pr := ph.Block().Preds[i]
+					addDominatingIfs(pr)
+					if iff := blockIf(pr); iff != nil {
+						conds = append(conds, iff.Cond)
+					}
+				}
+			}
+		}
+	})
+	if len(conds) == 0 {
+		c.Undecided("EMPH-CURRENT", "processEmphasis:strong-decision", fn.Pos(), "the branch that decides between emphasis and strong emphasis was not found")
+		return
+	}
+	// operands compared with 2
+	var ops []ssa.Value
+	seen := map[ssa.Value]bool{}
+	var walk func(v ssa.Value)
+	walk = func(v ssa.Value) {
+		if v == nil || seen[v] {
+			return
+		}
+		seen[v] = true
+		switch x := v.(type) {
+		case *ssa.Phi:
+			for _, e := range x.Edges {
+				walk(e)
+			}
+			// the && / || lowering: the branch conditions that lead into this phi
+			for _, pr := range x.Block().Preds {
+				if iff := blockIf(pr); iff != nil {
+					walk(iff.Cond)
+				}
+			}
+		case *ssa.UnOp:
+			if x.Op == token.NOT {
+				walk(x.X)
+			}
+		case *ssa.BinOp:
+			k, isC := constInt(x.Y)
+			switch {
+			case isC && ((x.Op == token.GEQ && k == 2) || (x.Op == token.GTR && k == 1) || (x.Op == token.LSS && k == 2) || (x.Op == token.LEQ && k == 1)):
+				ops = append(ops, x.X)
+			case x.Op == token.LAND || x.Op == token.LOR || x.Op == token.AND || x.Op == token.OR:
+				walk(x.X)
+				walk(x.Y)
+			}
+		}
+	}
+	for _, cnd := range conds {
+		walk(cnd)
+	}
+	if len(ops) == 0 {
+		c.Undecided("EMPH-CURRENT", "processEmphasis:strong-decision", fn.Pos(), "the strong decision does not compare anything with 2 in a form this rule recognises")
+		return
+	}
+	// stores that reduce a field of a stack slot
+	reducedVia := map[int]bool{} // field index of delimiterStackElement reduced through a slot pointer
+	slotPtr := func(v ssa.Value) bool {
+		ia, ok := v.(*ssa.IndexAddr)
+		if !ok {
+			return false
+		}
+		_, ok = isLoadOfField(ia.X, "inlineState", "stack")
+		return ok
+	}
+	eachInstr(fn, func(in ssa.Instruction) {
+		st, ok := in.(*ssa.Store)
+		if !ok {
+			return
+		}
+		fa, ok := st.Addr.(*ssa.FieldAddr)
+		if !ok || typeName(deref(fa.X.Type())) != "delimiterStackElement" || !slotPtr(fa.X) {
+			return
+		}
+		if bo, ok := st.Val.(*ssa.BinOp); ok && bo.Op == token.SUB {
+			reducedVia[fa.Field] = true
+		}
+	})
+	for i, v := range ops {
+		key := fmt.Sprintf("processEmphasis:strong-operand#%d", i+1)
+		good, why := false, ""
+		switch x := v.(type) {
+		case *ssa.Call:
+			if g := x.Call.StaticCallee(); g != nil && g.Name() == "Len" && len(x.Call.Args) == 1 {
+				if sc, ok := x.Call.Args[0].(*ssa.Call); ok {
+					if sg := sc.Call.StaticCallee(); sg != nil && sg.Name() == "Span" && typeName(deref(sc.Call.Args[0].Type())) == "Inline" {
+						good, why = true, "current length of a delimiter node's span"
+					}
+				}
+				if ld, ok := x.Call.Args[0].(*ssa.UnOp); ok && ld.Op == token.MUL {
+					if fa, ok := ld.X.(*ssa.FieldAddr); ok {
+						if tn, f, _ := fieldAddrInfo(fa); tn == "Inline" && f == "span" {
+							good, why = true, "current length of a delimiter node's span"
+						}
+					}
+				}
+			}
+		case *ssa.BinOp:
+			if x.Op == token.SUB {
+				good, why = true, "difference of two positions"
+			}
+		case *ssa.UnOp:
+			if x.Op == token.MUL {
+				if fa, ok := x.X.(*ssa.FieldAddr); ok && typeName(deref(fa.X.Type())) == "delimiterStackElement" {
+					switch {
+					case !slotPtr(fa.X):
+						why = "a count read from a copy of the stack element (a local), not from the stack slot"
+					case !reducedVia[fa.Field]:
+						why = "a field of the stack element that processEmphasis never reduces through the stack slot"
+					default:
+						good, why = true, "a field of the stack slot that is reduced through the slot when delimiters are used"
+					}
+				}
+			}
+		case *ssa.Field:
+			if typeName(x.X.Type()) == "delimiterStackElement" {
+				why = "a count read from a copy of the stack element (a value loaded earlier), which later matches do not update"
+			}
+		}
+		if why == "" {
+			why = "not a quantity this rule can relate to what is left of the run: " + describeValue(v)
+		}
+		c.Check(good, "EMPH-CURRENT", key, v.Pos(), why)
+	}
+}
+
+func init() {
+	addControls(
+		Control{Name: "strong-decided-by-scanned-run-length", Props: []string{"C13", "C11"}, File: "inlines.go",
+			Old: "strong := opener.Span().Len() >= 2 && closer.Span().Len() >= 2", New: "strong := opener.Span().Len() >= 2 && state.stack[currentPosition].n >= 2", Expect: "EMPH-CURRENT/processEmphasis:strong-operand",
+			Why: "'**a **b*** c': the closer has one character left when it meets the second opener"},
+		Control{Name: "neg-strong-decision-with-locals", Props: []string{"C13", "C11"}, File: "inlines.go", Negative: true,
+			Old: "strong := opener.Span().Len() >= 2 && closer.Span().Len() >= 2", New: "openerLeft, closerLeft := opener.Span().Len(), closer.Span().Len()\n\t\t\tstrong := openerLeft > 1 && closerLeft > 1"},
 	)
 }
